@@ -67,8 +67,22 @@ pub fn copy_file_bytes(infd: &File, outfd: &File, bytes: u64) -> Result<usize> {
 pub fn copy_file_offset(infd: &File, outfd: &File, bytes: u64, off: i64) -> Result<usize> {
     let mut off_in = off as u64;
     let mut off_out = off as u64;
-    try_copy_file_range(infd, Some(&mut off_in), outfd, Some(&mut off_out), bytes)
-        .unwrap_or_else(|| copy_range_uspace(infd, outfd, bytes as usize, off as usize))
+    let mut copied: u64 = 0;
+    // The kernel may copy less than requested (it always does for
+    // requests over 2GiB), so keep going until the block is done.
+    while copied < bytes {
+        let remaining = bytes - copied;
+        match try_copy_file_range(infd, Some(&mut off_in), outfd, Some(&mut off_out), remaining) {
+            Some(Ok(0)) => break, // EOF
+            Some(Ok(n)) => copied += n as u64,
+            Some(Err(e)) => return Err(e),
+            None => {
+                let uoff = off as u64 + copied;
+                copied += copy_range_uspace(infd, outfd, remaining as usize, uoff as usize)? as u64;
+            }
+        }
+    }
+    Ok(copied as usize)
 }
 
 /// Guestimate if file is sparse; if it has less blocks that would be
